@@ -172,3 +172,100 @@ def gen_file(progs, lists, lemmas):
     for n, expr in lemmas:
         out.append(f'Lemma {n} : {expr} = true.\nProof. vm_compute. reflexivity. Qed.')
     return '\n'.join(out) + '\n', ids
+
+
+# ---------- side condition of the exemptions: inside the method itself, every direct read of an exempt attribute is
+# dominated by a write of it in the same call (definite assignment over if/else; loops and try bodies are conservative) ----------
+def _direct_accesses(node, attr):
+    """yields ('load'|'store', lineno) for self.<attr>, hasattr(self,'<attr>'), getattr(self,'<attr>',..) inside an expression/statement"""
+    out = []
+    for n in ast.walk(node):
+        if isinstance(n, ast.Attribute) and isinstance(n.value, ast.Name) and n.value.id == 'self' and n.attr == attr:
+            out.append(('store' if isinstance(n.ctx, ast.Store) else 'load', n.lineno))
+        if isinstance(n, ast.Call) and isinstance(n.func, ast.Name) and n.func.id in ('hasattr', 'getattr') and len(n.args) >= 2 \
+                and isinstance(n.args[0], ast.Name) and n.args[0].id == 'self' and isinstance(n.args[1], ast.Constant) and n.args[1].value == attr:
+            out.append(('load', n.lineno))
+        if isinstance(n, ast.Call) and isinstance(n.func, ast.Name) and n.func.id == 'setattr' and len(n.args) >= 2 \
+                and isinstance(n.args[1], ast.Constant) and n.args[1].value == attr:
+            out.append(('store', n.lineno))
+    return out
+
+
+def _definite(stmts, attr, assigned, bad):
+    for st in stmts:
+        if isinstance(st, ast.If):
+            for kind, ln in _direct_accesses(st.test, attr):
+                if kind == 'load' and not assigned:
+                    bad.append(ln)
+            a1 = _definite(st.body, attr, assigned, bad)
+            a2 = _definite(st.orelse, attr, assigned, bad)
+            assigned = assigned or (a1 and a2)
+        elif isinstance(st, (ast.For, ast.While, ast.With, ast.Try)):
+            # reads inside are checked with the current flag; writes inside do not count afterwards (conservative)
+            for field in ('body', 'orelse', 'finalbody'):
+                _definite(getattr(st, field, []) or [], attr, assigned, bad)
+            for h in getattr(st, 'handlers', []) or []:
+                _definite(h.body, attr, assigned, bad)
+            hdr = [getattr(st, 'iter', None), getattr(st, 'test', None)] + [i.context_expr for i in getattr(st, 'items', [])]
+            for e in hdr:
+                if e is not None:
+                    for kind, ln in _direct_accesses(e, attr):
+                        if kind == 'load' and not assigned:
+                            bad.append(ln)
+        elif isinstance(st, (ast.FunctionDef, ast.ClassDef)):
+            continue
+        else:
+            acc = _direct_accesses(st, attr)
+            # within one simple statement the right-hand side is evaluated before the store
+            for kind, ln in acc:
+                if kind == 'load' and not assigned:
+                    bad.append(ln)
+            if any(k == 'store' for k, _ in acc):
+                assigned = True
+    return assigned
+
+
+def exemption_side_condition(cls, method, attrs):
+    """returns list of (attr, line) direct reads of an exempt attribute in cls.method that are not dominated by a write in the same call"""
+    import os
+    from harness.common import REPO
+    rel = 'xrfm/xrfm.py' if cls == 'xRFM' else 'xrfm/rfm_src/recursive_feature_machine.py'
+    tree = ast.parse(open(os.path.join(REPO, *rel.split('/'))).read())
+    for node in tree.body:
+        if isinstance(node, ast.ClassDef) and node.name == cls:
+            for it in node.body:
+                if isinstance(it, ast.FunctionDef) and it.name == method:
+                    out = []
+                    for a in attrs:
+                        bad = []
+                        _definite(it.body, a, False, bad)
+                        out += [(a, ln) for ln in bad]
+                    return out
+    raise ValueError(f'{cls}.{method} not found')
+
+
+def tuning_metric_shape():
+    """None when xRFM.fit touches self.tuning_metric only as `if self.tuning_metric is not None: <reads> else: is_class = ...; self.tuning_metric = 'brier' if is_class else 'mse'`
+    (plus later reads); otherwise a description of what differs"""
+    import os
+    from harness.common import REPO
+    tree = ast.parse(open(os.path.join(REPO, 'xrfm', 'xrfm.py')).read())
+    fn = None
+    for node in tree.body:
+        if isinstance(node, ast.ClassDef) and node.name == 'xRFM':
+            for it in node.body:
+                if isinstance(it, ast.FunctionDef) and it.name == 'fit':
+                    fn = it
+    if fn is None:
+        return 'xRFM.fit not found'
+    stores = [n for n in ast.walk(fn) if isinstance(n, ast.Attribute) and isinstance(n.value, ast.Name) and n.value.id == 'self'
+              and n.attr == 'tuning_metric' and isinstance(n.ctx, ast.Store)]
+    if len(stores) != 1:
+        return f'{len(stores)} writes of self.tuning_metric in fit (expected 1)'
+    for st in fn.body:
+        if isinstance(st, ast.If) and ast.unparse(st.test) == 'self.tuning_metric is not None':
+            els = [ast.unparse(x) for x in st.orelse]
+            if els != ['is_class = not y.is_floating_point()', "self.tuning_metric = 'brier' if is_class else 'mse'"]:
+                return f'else-branch of the tuning_metric test is {els}'
+            return None
+    return '`if self.tuning_metric is not None` not found at the top level of fit'
